@@ -183,14 +183,24 @@ Proof.
   vm_compute. auto 10.
 Qed.
 
-(* the usize underflow of the negative-index branch (a panic when overflow checks are on) *)
-Theorem C19_remove_negidx_panic_refuted : exists (k : kind) (p : path),
-  remove_ok k p false = false /\ snd (kremove k p false) = true.
-Proof.
-  exists (k_array (mkC [(0%nat, Kind (mkP false false false true false false false false) None None)] (UInf inf_any))),
-         [SIndex (-2)].
-  vm_compute. auto.
-Qed.
+(* a single-segment removal never hits an arithmetic-overflow panic, whatever the kind, the segment and
+   the compaction flag. Until /repo 3fccdc6 the negative-index branch computed `x + 1 - negative_index`
+   in usize and `Kind::array({0: boolean} + unknown any).remove([-2])` panicked (this statement replaces
+   C19_remove_negidx_panic_refuted); the subtraction now saturates. That the result is also a sound
+   kind is not claimed here: negative indices into arrays of unknown length stay outside remove_ok
+   (known finding 10, the elements behind the removed one are not shifted). *)
+Theorem C19_remove_single_segment_no_panic : forall (k : kind) (s : seg) (compact : bool),
+  snd (kremove k [s] compact) = false.
+Proof. exact remove_single_segment_no_panic. Qed.
+Print Assumptions C19_remove_single_segment_no_panic.
+
+(* the former panic witness: no panic, and every removal from a member is covered *)
+Theorem C19_remove_negidx_below_known_fixed :
+  let k := k_array (mkC [(0%nat, Kind (mkP false false false true false false false false) None None)] (UInf inf_any)) in
+  snd (kremove k [SIndex (-2)] false) = false
+  /\ member (snd (remove (VArr [VBool true; VInt 5]) [SIndex (-2)] false)) (fst (fst (kremove k [SIndex (-2)] false))) = true
+  /\ member (snd (remove (VArr [VBool true]) [SIndex (-2)] false)) (fst (fst (kremove k [SIndex (-2)] false))) = true.
+Proof. vm_compute. auto. Qed.
 
 (* ---------- merge ---------- *)
 
